@@ -147,6 +147,7 @@ UfuncStep(f, x, y) ==
 \* array functions producing a new array: name in "cumsum" "sort" "diff" "unique" "astype" (arg = n for diff), "concat" (arg = <<h2, axis>>)
 FuncStep(name, h, arg) ==
   LET F(A(_)) == CASE name = "concat" -> Concat(<<A(h), A(arg[1])>>, arg[2])
+                   [] name = "concat1" -> Concat(<<A(h)>>, 0)                    \* np.concatenate([a]): an equal, independent array
                    [] name = "diff" -> Scan("diff", A(h), arg)
                    [] name = "astype" -> <<"ragged", A(h)[1], A(h)[2]>>          \* astype(own dtype): an equal, independent array
                    [] name \in {"sum", "max", "min", "mean", "argmax", "argmin"} -> Reduce(<<"n", name>>, A(h), -1, 0)    \* an observation
